@@ -1,6 +1,6 @@
 //! C07: compilation is deterministic.
 //!
-//! request : C07.repeat \t <dx|vk|vkba|msl> \t <all|nopipeline> \t <gen:<seed> | clash:<seed> | share:<seed> | disk:<root>|<entry>
+//! request : C07.repeat \t <dx|vk|vkba|msl> \t <all|nopipeline> \t <gen:<seed> | clash:<seed> | share:<seed> | inline:<seed> | disk:<root>|<entry>
 //!                                                                  | diag:<family>:<seed> | src:<hex of the source>>
 //! observe : digest of sources + stages + metadata + pipeline state, or of the fully rendered diagnostic
 //!           (message, file, line, column, source excerpt, notes) followed by `|<stage>/<error variant>`
@@ -33,6 +33,9 @@ fn source_of(id: &str) -> Option<Input> {
     } else if let Some(seed) = id.strip_prefix("clash:") {
         let seed: u64 = seed.parse().ok()?;
         Some(mem(clash_program(&mut Rng::new(seed))))
+    } else if let Some(seed) = id.strip_prefix("inline:") {
+        let seed: u64 = seed.parse().ok()?;
+        Some(mem(inline_program(&mut Rng::new(seed))))
     } else if let Some(seed) = id.strip_prefix("share:") {
         let seed: u64 = seed.parse().ok()?;
         Some(mem(share_program(&mut Rng::new(seed))))
@@ -168,6 +171,59 @@ fn share_program(rng: &mut Rng) -> String {
     }
     s.push_str("}\nPipeline P\n{\n    ComputeShader = entry;\n}\n");
     s
+}
+
+/// Programs for the one hash walk of the binding allocator (`assign_api_bindings`: `for (set, size) in inline_size`,
+/// then `inline_constant_buffers.sort()`): BufferAddress / RWBufferAddress globals in 2-4 bind groups that all hold
+/// the same number of ordinary resources, so the inline descriptor blocks of the groups tie on their api location
+/// and only the set index of the derived `Ord` separates them (seed C07-2 sorts by location alone).
+fn inline_program(rng: &mut Rng) -> String {
+    let groups = rng.range(2, 4) as usize;
+    let ordinary = rng.below(3) as usize;
+    let by_register = rng.chance(1, 2);
+    let mut decls: Vec<String> = Vec::new();
+    let mut uses: Vec<String> = Vec::new();
+    for g in 0..groups {
+        for o in 0..ordinary {
+            let name = format!("g_tex_{}_{}", g, o);
+            if by_register {
+                decls.push(format!("Texture2D<float4> {} : register(t{}, space{});\n", name, o, g));
+            } else {
+                decls.push(format!("[[rssl::bind_group({})]] Texture2D<float4> {};\n", g, name));
+            }
+            uses.push(format!("    {};\n", name));
+        }
+        let addrs = rng.range(1, 2) as usize;
+        for a in 0..addrs {
+            let name = format!("g_addr_{}_{}", g, a);
+            let ty = if rng.chance(1, 3) { "RWBufferAddress" } else { "BufferAddress" };
+            if by_register {
+                let class = if ty == "BufferAddress" { "t" } else { "u" };
+                decls.push(format!("const {} {} : register({}{}, space{});\n", ty, name, class, ordinary + a, g));
+            } else {
+                decls.push(format!("[[rssl::bind_group({})]] {} {};\n", g, ty, name));
+            }
+            uses.push(format!("    s_sum = s_sum + {}.Load<uint>(0);\n", name));
+        }
+    }
+    shuffle_lines(rng, &mut decls);
+    let mut s = String::from("static uint s_sum = 0;\n");
+    for d in &decls {
+        s.push_str(d);
+    }
+    s.push_str("[numthreads(1, 1, 1)]\nvoid entry()\n{\n");
+    for u in &uses {
+        s.push_str(u);
+    }
+    s.push_str(&format!("}}\nPipeline P\n{{\n    ComputeShader = entry;\n    DefaultBindGroup = {};\n}}\n", groups));
+    s
+}
+
+fn shuffle_lines(rng: &mut Rng, v: &mut [String]) {
+    for i in (1..v.len()).rev() {
+        let j = rng.below(i as u64 + 1) as usize;
+        v.swap(i, j);
+    }
 }
 
 fn stress_opts() -> GenOpts {
@@ -377,6 +433,8 @@ fn run_requests(lines: &[String], out: &mut Out, hist: &mut Hist) {
             "source=name-clash"
         } else if id.starts_with("share:") {
             "source=name-shared-in-scope"
+        } else if id.starts_with("inline:") {
+            "source=inline-descriptor-groups"
         } else if id.starts_with("diag:") {
             "source=diagnostics-generator"
         } else if id.starts_with("src:") {
@@ -506,6 +564,13 @@ pub fn run(args: &Args, out: &mut Out) {
         let seed = rng.next() >> 16;
         for t in ALL_TARGETS {
             lines.push(format!("C07.repeat\t{}\tall\tshare:{}", t.name(), seed));
+        }
+    }
+    // buffer addresses in several bind groups with tied inline descriptor slots (the hash walk of assign_api_bindings)
+    for _ in 0..n / 4 {
+        let seed = rng.next() >> 16;
+        for t in [Tgt::VkBa, Tgt::Vk] {
+            lines.push(format!("C07.repeat\t{}\tall\tinline:{}", t.name(), seed));
         }
     }
     // the repository's own rejected inputs (first argument of check_fail / check_fail_message in the typer tests)
